@@ -217,6 +217,20 @@ def split_key(key):
     return parts[0], frozenset(parts[1:])
 
 
+def minimal_witness(key):
+    """The smallest case of a key's class (shards are strided, so the first witness found is not the smallest)."""
+    base, ex = split_key(key)
+    cls, kind = base.split(":")
+    k = {"1": 1, "2": 2, "3+": 3}[cls.split("len")[1]]
+    if cls.startswith("cycle"):
+        f = [(i + 1) % k for i in range(k)]
+        if "tail" in ex:
+            f = [1] + [1 + (i + 1) % k for i in range(k)]       # id 0 hangs off the cycle 1..k
+    else:
+        f = [i + 1 for i in range(k)] + [-1]
+    return {"n": len(f), "f": f, "kind": kind, "ncfg": 2 if "cfg2" in ex else 1, "node": 0}
+
+
 def finalize(ctx, acc):
     # key minimisation: 'x|cfg2' / 'x|tail' say nothing new when 'x' itself fails
     keys = {k: split_key(k) for k in acc.viol}
@@ -226,6 +240,13 @@ def finalize(ctx, acc):
                 acc.viol[k2]["count"] += acc.viol[k]["count"]
                 del acc.viol[k]
                 break
+    for k, v in acc.viol.items():
+        w = minimal_witness(k)
+        if classify(w["n"], tuple(w["f"]), 0)[0] == split_key(k)[0].split(":")[0]:
+            probe = Acc()
+            msgs = check_table(probe, w["n"], tuple(w["f"]), w["kind"], w["ncfg"], nodes=[0])
+            if msgs:
+                v["witness"], v["msg"] = w, msgs[0]
     # vacuity / budget calibration
     from androguard.core import axml
     from gen import arscgen as G
